@@ -464,8 +464,11 @@ impl<'input> Tokenizer<'input> {
                     }
                     continue;
                 } else if c == 'r' {
+                    // `r"..."`, `r#"..."#` (also as the tail of `br`): a raw string has no
+                    // escapes and ends at the first `"` followed by as many `#` as it started
+                    // with. `regex_literal` expects the index of the `r`.
                     self.bump();
-                    if let Some((idx, '#')) = self.lookahead {
+                    if let Some((_, '#')) | Some((_, '"')) = self.lookahead {
                         self.regex_literal(idx)?;
                     }
                     continue;
